@@ -247,7 +247,11 @@ MatchLine(O, E) ==
 Item(k, w, t) == [prop |-> "C17", kind |-> k, where |-> w, tags |-> t]
 
 FileName(f) == f.name \o f.ext
-Selected(in, f) == f.ext \in Range(in.filters)
+\* "a selected extension": the file name ends with one of the selected extensions (api.d.ts is selected by .d.ts and by .ts,
+\* main.ts by .ts only)
+Selected(in, f) == \E k \in DOMAIN in.filters :
+                     LET flt == in.filters[k]
+                     IN  Len(flt) <= Len(f.ext) /\ SubSeq(f.ext, Len(f.ext) - Len(flt) + 1, Len(f.ext)) = flt
 
 DiffFile(in, f, obs) ==      \* obs: the observed entries naming this file, in report order
   LET fname == FileName(f) IN
